@@ -1,26 +1,40 @@
 """C11 Image iteration matches frame-by-frame rendering and leaks nothing.
 
-Engine: explicit-state BFS over operation histories x (position of one injected PIL fault), one
-search per configuration (source x style x initial size x iterator flavour).  A state is the history
-that reaches it; every transition replays the history on fresh real objects (`execute`).  States are
-merged by `canon` = the property-relevant implementation state (image: closed / size setting / seek
-position; per iterator: generator suspension point and its locals n / repeat / sent / frame / cache;
-`_loop_no`) together with the reference model state and "fault already used".
+Engine: explicit-state BFS over operation histories x (position and kind of one injected PIL fault),
+one search per configuration (source x style x initial size x iterator flavour = repeat / format
+spec / cached).  A state is the history that reaches it; every transition replays the history on fresh
+real objects (`execute`).  States are merged by `canon` = the property-relevant implementation state
+(image: closed / size setting / seek position / known frame count; per iterator: generator suspension
+point and its locals n / repeat / sent / frame / cache, `_loop_no`; terminal size) together with the
+reference model state and "fault already used".  `guard_cfg` checks the merging: enumeration of *all*
+histories to a small depth must give the same states and the same violation signatures.
+
+Operations: format(spec) / str / draw still / draw animated (repeat 1, 2; repeat=-1 cut by Ctrl-C at a
+frame delay; virtual stdout + clock) / draw with an invalid repeat, cached or style argument /
+ImageIterator(...) / next / seek(p) / close / drop + gc.collect() / image.close / image.seek /
+image.n_frames / set a fixed size, a second one, the dynamic Size.FIT / terminal resize; plus the
+constructor product (`run_ctor`): from_url x {404 (with and without an image body), 500, non-image,
+empty body, refused connection, malformed URL}, from_file x {missing, non-image, directory}, valid
+image x invalid constructor arguments, render style not supported by the terminal, failing Image.open.
 
 Oracle (independent of the code under test):
 * reference model B.5 of DESIGN (`ItModel`) says which frame a `next` must yield, when iteration
-  stops, which exceptions `seek` raises and what `image.tell()` is;
-* the text of a frame must equal `format(twin, spec)` of a *separate* image object built from a PIL
-  image the harness opened itself, seeked to that frame, same size setting (ANIM -> WHOLE for frames);
+  stops, which exceptions `seek` raises and what `image.tell()` is (last yielded frame, 0 after
+  exhaustion, untouched by draw());
+* the text of a frame must equal `format(twin, spec)` of a *separate* image object built on a PIL
+  image the harness opened itself, seeked to that frame, same size setting and terminal (ANIM -> WHOLE
+  for frames; terminal-relative padding of the spec is resolved when the iterator is created);
 * resource tracking (`c11_kit.Tracker`): every image the library opens is recorded with its file
   objects and kept alive by the harness, so only an explicit close closes it.  After every operation
   each file opened by the library must be closed unless it is owned by a live iterator (live = created
   and neither closed, dropped, exhausted nor failed); plain `open()` handles of iterm2 likewise;
   `/proc/self/fd` must equal baseline + files owned by live iterators; the library's temp dir must
-  list exactly the copy of the open URL image; a caller-supplied PIL image must never see `close()`;
-  `image.size` must be untouched by every rendering operation.
-A leak is reported with its own signature (operation, iterator state, failing PIL step + source line),
-then *repaired* by the harness (file force-closed) so that the search continues behind it.
+  list exactly the copy of the open URL image (same bytes); a caller-supplied PIL image must never see
+  `close()`; `image.size` must be untouched by every rendering operation.  Every execution ends with a
+  sweep (close live iterators, drop the image, collect) after which everything is back at baseline.
+A leak is reported with its own signature (operation, which open, iterator state, failing PIL step +
+source line), then *repaired* by the harness (file force-closed) so that the search continues behind
+it.  A leak that the same operation shows without the fault as well keeps the fault-free signature.
 """
 from __future__ import annotations
 
@@ -798,7 +812,7 @@ def judge(S, op, c):
     # (PIL itself closes the file of a single-frame image once it is loaded: only close() calls count)
     if S.pil is not None:
         if id(S.pil) in T.closed_ids:
-            viol(S, dict(sig0, clause="caller-image-closed", step=step, iter=it_state),
+            viol(S, dict(sig0, clause="caller-image-closed", faulted=bool(fired), iter=it_state),
                  f"{label}: the PIL image supplied by the caller was closed by the library")
             S.stop = True
     # (3) open-file count
@@ -806,7 +820,7 @@ def judge(S, op, c):
     owned -= sum(1 for f in S.pil_files if isinstance(f, (io.BufferedReader, io.FileIO)) and f.closed)
     nf = K.nfds()
     if nf != S.base + owned and not leaked:
-        viol(S, dict(sig0, clause="fd-count", step=step, delta="+" if nf > S.base + owned else "-"),
+        viol(S, dict(sig0, clause="fd-count", faulted=bool(fired), delta="+" if nf > S.base + owned else "-"),
              f"after {label}: {nf} open file descriptors, expected baseline {S.base} + {owned} owned by live iterators")
         S.base = nf - owned     # resynchronise: report each cause once
     # (4) temp dir == copies of the currently open URL images
@@ -823,11 +837,11 @@ def judge(S, op, c):
                         f"http://127.0.0.1:{_PORT}{ROUTES[S.key]}":
                     ok = False
             if not ok:
-                viol(S, dict(sig0, clause="temp-dir", expected="one-copy", step=step),
+                viol(S, dict(sig0, clause="temp-dir", expected="one-copy", faulted=bool(fired)),
                      f"after {label}: temp dir lists {ls}, expected exactly the private copy of the open URL image")
                 S.stop = True
         elif ls:
-            viol(S, dict(sig0, clause="temp-dir", expected="empty", step=step),
+            viol(S, dict(sig0, clause="temp-dir", expected="empty", faulted=bool(fired)),
                  f"after {label}: temp dir still lists {ls} although no URL image is open")
             for fn in ls:
                 os.remove(os.path.join(L.common._TEMP_DIR, fn))
@@ -837,7 +851,7 @@ def judge(S, op, c):
     if name in RENDER_OPS and c["size_before"] is not None:
         now = img.size
         if now != c["size_before"] or type(now) is not type(c["size_before"]):
-            viol(S, dict(sig0, clause="size-changed", step=step, size=M.size),
+            viol(S, dict(sig0, clause="size-changed", faulted=bool(fired), size=M.size),
                  f"{label}: image.size was {c['size_before']!r} before and is {now!r} after")
             S.stop = True
     if name in ("size", "construct") and exc is None:
@@ -852,7 +866,7 @@ def judge(S, op, c):
             M.tell = t
         elif t != M.tell:
             phase = "exhausted" if name == "next" and M.its.get(op[1]) and M.its[op[1]].dead else "running"
-            viol(S, dict(sig0, clause="tell", phase=phase, fault=kindname, step=step),
+            viol(S, dict(sig0, clause="tell", phase=phase, faulted=bool(fired)),
                  f"after {label}: image.tell()={t}, expected {M.tell}")
             S.stop = True
 
